@@ -28,7 +28,19 @@ sys.path.insert(0, os.path.join(os.path.dirname(os.path.abspath(__file__)), ".."
 from vlib import common  # noqa: E402
 
 KINDS = ["StaticLazyLock", "StaticMut", "StaticInterior", "StaticPlain", "ThreadLocal", "MacroLazy",
-         "FieldCell", "FieldSync", "UnsafeBlock", "UnsafeFn", "UnsafeImpl"]
+         "FieldCell", "FieldSync", "UnsafeBlock", "UnsafeFn", "UnsafeImpl",
+         # reads of ambient process state (a result that uses one depends on more than text, extensions, converter)
+         "AmbientFs", "AmbientEnv", "AmbientTime", "AmbientProcess", "AmbientRandom", "HashIteration"]
+# Path / PathBuf / DirEntry methods that ask the file system
+PATH_FS = {"exists", "try_exists", "is_file", "is_dir", "is_symlink", "symlink_metadata", "read_dir", "read_link",
+           "canonicalize"}
+PATH_FS_NOARG = {"metadata"}            # `.metadata()` only without arguments (collector.metadata(k, v) is a method of ours)
+TIME_IDS = {"SystemTime", "Instant", "UNIX_EPOCH"}
+RANDOM_IDS = {"RandomState", "thread_rng", "getrandom", "OsRng"}
+RANDOM_MODS = {"rand", "fastrand", "getrandom"}
+HASH_TYPES = {"HashMap", "HashSet"}
+HASH_ITER = {"iter", "iter_mut", "keys", "values", "values_mut", "into_iter", "into_keys", "into_values", "drain",
+             "retain", "extract_if"}
 LAZY = {"LazyLock", "OnceLock", "Lazy", "OnceCell", "LazyCell", "Once", "SyncLazy", "SyncOnceCell"}
 SYNC = {"Mutex", "RwLock", "OnceLock", "LazyLock", "Lazy", "Condvar", "Once", "Barrier", "ReentrantLock"}
 CELL = {"Cell", "RefCell", "OnceCell", "UnsafeCell", "LazyCell", "SyncUnsafeCell"}
@@ -376,11 +388,111 @@ def scan_tokens(toks):
     return found
 
 
+def _t(toks, i):
+    return toks[i].t if 0 <= i < len(toks) else None
+
+
+def scan_ambient(toks):
+    """reads of ambient process state, anywhere in non-test code (also inside function bodies):
+         AmbientFs       a path through the module `fs` (`fs::..`, `std::fs`), `File::open|create`, `OpenOptions`,
+                         or a Path/PathBuf method that asks the file system (.exists() .is_file() .is_dir()
+                         .metadata() .read_dir() .canonicalize() ...)
+         AmbientEnv      a path through `env` (std::env::var, args, current_dir, temp_dir, ...); env!() is compile time
+         AmbientTime     SystemTime, Instant, UNIX_EPOCH
+         AmbientProcess  a path through `process` (id, Command, exit), `stdin`
+         AmbientRandom   RandomState, rand::, thread_rng, getrandom, fastrand
+         HashIteration   iteration over a std HashMap/HashSet (per-map random seed): HEURISTIC - names declared in
+                         the same file with a HashMap/HashSet type or initialiser (fields, lets, parameters,
+                         tuple-struct wrappers as `.0` of self), followed by .iter() .keys() .values() .drain()
+                         .into_iter() .retain(), or used as the iterated expression of a `for`.  A map handed to
+                         another file and iterated there is not seen."""
+    found = []
+    n = len(toks)
+    # names bound to hash containers in this file
+    hnames = set()
+    for i, t in enumerate(toks):
+        if t.k == "id" and t.t in HASH_TYPES:
+            # `name : [&mut] [path::]HashMap<` or `name = HashMap::new()` / `name : .. = HashMap::..`
+            j = i - 1
+            while j >= 0 and (toks[j].t in ("::", "&", "mut", "std", "collections") or toks[j].k == "life"):
+                j -= 1
+            if j >= 1 and toks[j].t in (":", "=") and toks[j - 1].k == "id":
+                hnames.add(toks[j - 1].t)
+            # tuple struct wrapper: struct X(HashMap<..>) -> `.0`
+            if j >= 2 and toks[j].t == "(" and toks[j - 1].k == "id" and _t(toks, j - 2) in ("struct",):
+                hnames.add("0@" + toks[j - 1].t)
+    wrappers = {h[2:] for h in hnames if h.startswith("0@")}
+    in_wrapper_impl = []   # (end index) ranges of `impl Wrapper { .. }`
+    for i, t in enumerate(toks):
+        if t.k == "id" and t.t == "impl":
+            j = i + 1
+            while j < n and toks[j].t != "{" and toks[j].t != ";":
+                j += 1
+            if j < n and toks[j].t == "{" and any(x.k == "id" and x.t in wrappers for x in toks[i:j]):
+                in_wrapper_impl.append((j, match_close(toks, j)))
+
+    def wrapper_self(i):
+        return any(a <= i < b for a, b in in_wrapper_impl)
+
+    for i, t in enumerate(toks):
+        if t.k != "id":
+            # `for pat in <expr> {`: handled at the `for` keyword
+            continue
+        nx, pv, pv2 = _t(toks, i + 1), _t(toks, i - 1), _t(toks, i - 2)
+        if t.t == "fs" and (nx == "::" or (pv == "::" and pv2 == "std")):
+            found.append(("AmbientFs", t.line, "fs path"))
+        elif t.t in ("File", "OpenOptions") and nx == "::":
+            found.append(("AmbientFs", t.line, t.t + "::"))
+        elif t.t == "env" and (nx == "::" or (pv == "::" and pv2 == "std")):
+            found.append(("AmbientEnv", t.line, "env path"))
+        elif t.t == "process" and (nx == "::" or (pv == "::" and pv2 == "std")):
+            found.append(("AmbientProcess", t.line, "process path"))
+        elif t.t == "stdin" and nx == "(":
+            found.append(("AmbientProcess", t.line, "stdin()"))
+        elif t.t in TIME_IDS:
+            found.append(("AmbientTime", t.line, t.t))
+        elif t.t in RANDOM_IDS or (t.t in RANDOM_MODS and nx == "::"):
+            found.append(("AmbientRandom", t.line, t.t))
+        elif pv == "." and nx == "(" and (t.t in PATH_FS or (t.t in PATH_FS_NOARG and _t(toks, i + 2) == ")")):
+            found.append(("AmbientFs", t.line, "." + t.t + "()"))
+        elif pv == "." and nx == "(" and t.t in HASH_ITER:
+            recv = toks[i - 2] if i >= 2 else None
+            if recv is not None and ((recv.k == "id" and recv.t in hnames) or
+                                     (recv.k == "lit" and recv.t == "<num>" and _t(toks, i - 3) == "." and
+                                      _t(toks, i - 4) == "self" and wrapper_self(i))):
+                found.append(("HashIteration", t.line, "%s.%s()" % (recv.t if recv.k == "id" else "self.0", t.t)))
+        elif t.t == "for":
+            # for <pat> in <expr> {   : look at the last identifier of <expr>
+            j = i + 1
+            depth = 0
+            while j < n and not (toks[j].t == "in" and toks[j].k == "id" and depth == 0):
+                if toks[j].t in OPEN:
+                    depth += 1
+                elif toks[j].t in CLOSE:
+                    depth -= 1
+                if toks[j].t in ("{", ";") and depth <= 0:
+                    break
+                j += 1
+            if j < n and toks[j].t == "in":
+                k = j + 1
+                last = None
+                while k < n and toks[k].t != "{":
+                    if toks[k].t in ("(", "["):
+                        last = None
+                        break
+                    if toks[k].k == "id":
+                        last = toks[k]
+                    k += 1
+                if last is not None and last.t in hnames and _t(toks, k) == "{" and toks[k - 1] is last:
+                    found.append(("HashIteration", t.line, "for .. in %s" % last.t))
+    return found
+
+
 def scan_source(src):
     toks, all_test = strip_attributes(lex(src))
     if all_test:
         return []
-    return scan_tokens(toks)
+    return scan_tokens(toks) + scan_ambient(toks)
 
 
 def area_of(rel):
@@ -388,8 +500,15 @@ def area_of(rel):
     return first[:-3] if first.endswith(".rs") else first
 
 
-def scan_tree(root=None):
-    """-> list of dict(area, kind, file, line, what), sorted by (area, kind order, file, line)"""
+# HashIteration is pinned (part of [items]) only on the parse path.  In these areas hash maps belong to converter
+# construction, grouping and shopping lists (C10 / C16 look at their order), the heuristic has a known name
+# collision there (`units.quantity` is a Vec), and a parse result cannot reach them: sites are reported as advisory.
+HASH_ADVISORY_AREAS = {"convert", "quantity", "aisle", "ingredient_list", "scale"}
+
+
+def scan_tree(root=None, advisory=None):
+    """-> list of dict(area, kind, file, line, what), sorted by (area, kind order, file, line);
+    HashIteration sites outside the parse path are appended to `advisory` (if given) instead"""
     root = root or os.path.join(common.REPO, "src")
     items = []
     for d, _, files in sorted(os.walk(root)):
@@ -399,7 +518,12 @@ def scan_tree(root=None):
             path = os.path.join(d, fn)
             rel = os.path.relpath(path, root)
             for kind, line, what in scan_source(open(path, encoding="utf-8").read()):
-                items.append({"area": area_of(rel), "kind": kind, "file": "src/" + rel, "line": line, "what": what})
+                it = {"area": area_of(rel), "kind": kind, "file": "src/" + rel, "line": line, "what": what}
+                if kind == "HashIteration" and it["area"] in HASH_ADVISORY_AREAS:
+                    if advisory is not None:
+                        advisory.append(it)
+                    continue
+                items.append(it)
     items.sort(key=lambda x: (x["area"], KINDS.index(x["kind"]), x["file"], x["line"]))
     return items
 
@@ -409,7 +533,9 @@ def render(items):
            "   process-wide, thread-local and interior-mutable state and of unsafe code, keyed by",
            "   (module area = first path component under src/, kind) and sorted; identifiers and line",
            "   numbers are deliberately absent, so a rename is harmless and a new static / cache / lazily",
-           "   built table / Cell|Mutex|Atomic field / unsafe block changes [items].",
+           "   built table / Cell|Mutex|Atomic field / unsafe block, and a new read of ambient process state",
+           "   (file system, environment, clock, process, randomness; hash-map iteration on the parse path)",
+           "   changes [items].",
            "   This committed copy is a snapshot so that a fresh clone builds. *)",
            "From Coq Require Import List String.", "Import ListNotations.", "Local Open Scope string_scope.",
            "Inductive kind := " + " | ".join(KINDS) + ".",
@@ -424,14 +550,15 @@ def render(items):
 
 
 def regenerate():
-    items = scan_tree()
+    advisory = []
+    items = scan_tree(advisory=advisory)
     path = os.path.join(common.COQ, "Gen/SharedState.v")
     txt = render(items)
     changed = not (os.path.exists(path) and open(path, encoding="utf-8").read() == txt)
     if changed:
         with open(path, "w", encoding="utf-8") as f:
             f.write(txt)
-    return {"changed": changed, "items": items}
+    return {"changed": changed, "items": items, "advisory": advisory}
 
 
 def expected_items():
